@@ -59,6 +59,20 @@ theorem blend_func_values_modelled :
 theorem non_separable_k_as_modelled :
     Generated.Blend.nonSeparableK = expectedNonSeparableK := by decide
 
+/-- function by function: the `k` read off the decorator of each non-separable function is the one
+the model's 4-channel path wraps that function with (`kSelOf`), and every one of the six is decorated -/
+theorem non_separable_k_per_function :
+    ∀ fn ∈ ["hue", "saturation", "color", "luminosity", "darker_color", "lighter_color"],
+      Generated.Blend.nonSeparableK.lookup fn = (kSelOf fn).map KSel.name ∧ (kSelOf fn).isSome = true := by
+  decide
+
+/-- a function reachable through `BLEND_FUNC` carries the CMYK wrapper exactly when the model treats it
+as non-separable (dropping a decorator, or decorating a separable mode, breaks this) -/
+theorem non_separable_decorated_exactly :
+    ∀ e ∈ Generated.Blend.blendFuncModeKeys ++ Generated.Blend.blendFuncOtherKeys,
+      (Generated.Blend.nonSeparableK.lookup e.2).isSome = (nonSeparableCMYK e.2).isSome := by
+  decide
+
 /-- the numeric literals in each function of blend.py are the ones the model hard-codes -/
 theorem numeric_constants_as_modelled :
     Generated.Blend.numericConstants = expectedNumericConstants := by decide
@@ -493,6 +507,39 @@ theorem rgb2cmy_defined {K : Rat} (hk : unit K) : ∀ d ∈ rgb2cmyDens K, 0 < d
 blend.py ask for the backdrop's for hue, saturation, color): known finding
 `C12/cmyk-wrapper/K-taken-from-source` -/
 theorem cmyk_k_is_source_k (f : RGB → RGB → RGB) (Qb Qs : CMYK) : (nonSepCMYK .s f Qb Qs).k = Qs.k := rfl
+
+/-- which `K` each mode carries, by the name under which `BLEND_FUNC` holds it: the source's, for all
+six (for luminosity this is what PDF 1.7 §11.3.5.3 prescribes). The harness evaluates this clause on
+the real code on CMYK inputs whose two `K` differ. -/
+theorem cmyk_k_rule (fn : String) (g : CMYK → CMYK → CMYK) (h : nonSeparableCMYK fn = some g)
+    (Qb Qs : CMYK) : (g Qb Qs).k = Qs.k := by
+  unfold nonSeparableCMYK at h
+  split at h
+  · rename_i k f hk _
+    have : k = .s := by
+      unfold kSelOf at hk
+      split at hk <;> simp_all
+    cases h; subst this; rfl
+  · cases h
+
+example : ∃ g, nonSeparableCMYK "luminosity" = some g := ⟨_, rfl⟩
+
+/-- on 3-channel input luminosity is the color blend with backdrop and source exchanged … -/
+theorem luminosity_is_color_swapped (Cb Cs : RGB) : luminosity Cb Cs = color Cs Cb := rfl
+
+/-- … on 4-channel input it is not: the two carry different `K`s (each its own source's) … -/
+theorem luminosity_cmyk_color_swapped_k (Qb Qs : CMYK) :
+    (luminosityCMYK Qb Qs).k = Qs.k ∧ (colorCMYK Qs Qb).k = Qb.k := ⟨rfl, rfl⟩
+
+theorem luminosity_cmyk_ne_color_swapped :
+    luminosityCMYK ⟨0, 0, 0, 0⟩ ⟨0, 0, 0, 1 / 2⟩ ≠ colorCMYK ⟨0, 0, 0, 1 / 2⟩ ⟨0, 0, 0, 0⟩ := by
+  decide +kernel
+
+/-- … and they agree exactly when the two `K`s are equal -/
+theorem luminosity_cmyk_eq_color_swapped_of_equal_k (Qb Qs : CMYK) (h : Qb.k = Qs.k) :
+    luminosityCMYK Qb Qs = colorCMYK Qs Qb := by
+  unfold luminosityCMYK colorCMYK nonSepCMYK
+  simp only [h, luminosity_is_color_swapped]
 
 /-- THE RANGE FAILS on the CMYK path: `hue` of white over 50 % black gives `C = M = Y ≈ -1`
 (known finding `C12/cmyk-wrapper/range/below-zero`; replayed on the real code by the harness) -/
